@@ -44,9 +44,10 @@ theorem sub_cost (r : Re) (c d : Nat) (h : PolyBounded r c d) (s : List Nat) :
 
 /-- negative side (model-level witness family): the nested repetition the library used before
     the repair, `'([^'\\]+)+'`, has a search tree that at least doubles with every added
-    character on the unterminated inputs `aaa…a` -/
+    character on the unterminated inputs `'aaa…a` (opening quote, then `n` letters, no closing
+    quote; without the opening quote the pattern fails at once) -/
 theorem nested_plus_is_exponential (n : Nat) :
-    2 ^ n ≤ Re.work Proofs.nestedPlusPattern (List.replicate n 97) :=
+    2 ^ n ≤ Re.work Proofs.nestedPlusPattern (39 :: List.replicate n 97) :=
   Proofs.nestedPlus_exponential n
 
 end Verif.C18
